@@ -102,7 +102,7 @@ impl ConfigFile {
 
     /// Checks if the CFG contains a category named `select_category`
     pub fn has_category(&self, select_category: &str) -> bool {
-        self.settings.contains_key(select_category)
+        self.categories.iter().any(|category| category == select_category)
     }
 
     /// Sets the value to `new_value` of `select_key`
